@@ -31,6 +31,22 @@ theorem runOn_all (r : Rule) (s : Schema) (d : Document) (P : Err → Prop)
   · exact foldl_step_errs r s d P hon tr (r.init, []) (by simp) x hx
   · exact hfin _ x hx
 
+theorem flatMap_ne_nil_iff {α β : Type} (f : α → List β) (l : List α) :
+    l.flatMap f ≠ [] ↔ ∃ a ∈ l, f a ≠ [] := by
+  induction l with
+  | nil => simp
+  | cons x xs ih =>
+    simp only [List.flatMap_cons, List.mem_cons, exists_eq_or_imp]
+    constructor
+    · intro h
+      cases hx : f x with
+      | nil =>
+        right; apply ih.1; intro hxs; apply h; simp [hx, hxs]
+      | cons y ys => left; simp
+    · rintro (h | h)
+      · intro h'; exact h (List.append_eq_nil_iff.1 h').1
+      · intro h'; exact ih.2 h (List.append_eq_nil_iff.1 h').2
+
 /-- if the errors a rule reports at a callback do not depend on its state, its report is the
     concatenation of the per-callback reports followed by the final step -/
 theorem runOn_of_local (r : Rule) (s : Schema) (d : Document) (check : Ev × Snap → List Err)
